@@ -200,4 +200,21 @@ PROPS = {
         ],
         "timeout": {"quick": 1500, "thorough": 10800},
     },
+    "C07": {
+        "level": "exploration",
+        "technique": "property-based testing (rapid), differential across fresh processes: generated programs over large collections are evaluated in several new processes (each with its own random hash seeds, each evaluating twice) and the printed results compared byte for byte",
+        "level_text": "Generated-input search: batches of 24 programs whose printed result passes through the enumeration of sets of 9-40 members (numbers, strings, tuples, "
+                      "mixed kinds, arrays with holes): printing and //str.repr, =>, where, orderby with injective keys, rank with and without ties, nest, joins, sum/max/min/mean, "
+                      "dictionaries built by =>, >>, >>>, single, calls on grouped collections, set patterns, plus typed random programs. Every batch is run by 3 (thorough 6) fresh "
+                      "evalbatch processes; github.com/arr-ai/hash and frozen draw their seeds at process start, and each process evaluates each program twice to expose "
+                      "Go-map-order effects. Any difference in the printed bytes (or value vs error) is a violation; the replay is the single program.",
+        "level_note": "Trusted: process isolation as the source of seed variation (seeds come from crypto/rand and are outside the harness's control: detection is probabilistic, a pass never depends on them), rapid. "
+                      "Programs never put two values at one sequence index (finding seq-superimposed-index makes the result seed-dependent; excluded by construction).",
+        "tests": [{"name": "TestC07", "quick": 12, "thorough": 150}],
+        "tools": ["evalbatch"],
+        "rule": "every program is non-trivial by construction (its output depends on a collection with >= 9 members, above frozen's 8-element leaf where insertion order stops deciding enumeration order); evaluations counts programs, not batches. Distinct = distinct program text.",
+        "assumptions": COMMON_ASSUMPTIONS + [
+            "orderby keys are injective; ties are exempt by the property",
+        ],
+    },
 }
